@@ -45,6 +45,9 @@ pub struct Monitors {
     pub peer_last_wnd: u32,
     pub largest_payload_seen: usize,
     pub largest_payload_acked: usize,
+    pub largest_peer_payload: usize,
+    /// the sequence number first transmitted as an oversized probe and not yet acknowledged
+    pub probe_seq: Option<u16>,
     /// loss episode: Some(recovery point) from the first retransmission until the cumulative ACK passes it
     pub episode: Option<u16>,
     pub loss_seen: bool,
@@ -90,6 +93,8 @@ impl Monitors {
             peer_last_wnd: if cfg.incoming { 0 } else { cfg.peer_wnd },
             largest_payload_seen: 0,
             largest_payload_acked: 0,
+            largest_peer_payload: 0,
+            probe_seq: None,
             episode: None,
             loss_seen: false,
             bytes_acked: 0,
@@ -139,6 +144,8 @@ impl Monitors {
         out.push(self.peer_last_wnd as u64);
         out.push(self.largest_payload_seen as u64);
         out.push(self.largest_payload_acked as u64);
+        out.push(self.largest_peer_payload as u64);
+        out.push(self.probe_seq.map(|x| x as u64).unwrap_or(u64::MAX));
         out.push(self.episode.map(|x| x as u64).unwrap_or(u64::MAX));
         out.push(self.loss_seen as u64);
         out.push(self.bytes_acked);
@@ -238,7 +245,10 @@ impl Monitors {
     }
 
     fn peer_side_updates(&mut self, rec: &StepRecord, w: &World) {
-        for (h, _, _) in &rec.peer_sent {
+        for (h, plen, _) in &rec.peer_sent {
+            if h.ptype == 0 {
+                self.largest_peer_payload = self.largest_peer_payload.max(*plen);
+            }
             if h.ptype == 3 {
                 self.reset_seen = true;
             }
@@ -270,6 +280,11 @@ impl Monitors {
                 }
             }
             self.cum_acked_bytes = self.cum_acked_bytes.max(cum);
+            if let Some(ps) = self.probe_seq {
+                if self.tx.get(&ps).map(|t| t.acked).unwrap_or(false) {
+                    self.probe_seq = None;
+                }
+            }
             if let Some(fs) = self.fin_seq {
                 if sdist(h.ack, fs) >= 0 {
                     self.fin_acked_by_peer = true;
@@ -340,7 +355,7 @@ impl Monitors {
                 }
                 let is_newest = self.tx_order.last() == Some(&seq);
                 if len != t.len {
-                    let split_ok = is_newest && !t.acked && len < t.len && t.len > self.largest_payload_acked.max(self.protocol_min_payload());
+                    let split_ok = is_newest && !t.acked && len < t.len && t.len > self.proven();
                     if !split_ok {
                         v.push(f(
                             "C06",
@@ -396,9 +411,10 @@ impl Monitors {
                     ));
                 }
                 // C14: an ordinary segment never exceeds the largest payload already proven deliverable
-                let proven = self.largest_payload_acked.max(self.protocol_min_payload());
+                let proven = self.proven();
                 let oversized = len > proven;
                 if oversized {
+                    self.probe_seq = Some(seq);
                     // at most one unacknowledged oversized segment, and it is the newest
                     let others = self.tx.values().filter(|t| !t.acked && t.len > proven).count();
                     if others > 0 {
@@ -462,6 +478,14 @@ impl Monitors {
                 }
             }
         }
+    }
+
+    /// largest payload size already proven deliverable: acknowledged by the peer, or received from the
+    /// peer (the implementation counts delivered payloads of either direction, as the property's anchors
+    /// say), never more than the link ceiling; at least the protocol minimum
+    pub fn proven(&self) -> usize {
+        let ceiling = self.cfg.link_mtu - if self.cfg.ipv6 { 48 } else { 28 } - 20;
+        self.largest_payload_acked.max(self.largest_peer_payload.min(ceiling)).max(self.protocol_min_payload())
     }
 
     /// smallest payload the protocol may use without proof: min(link ceiling, default minimum MTU payload)
@@ -826,7 +850,7 @@ impl Monitors {
             let alive = w.done.is_none();
             let closing_by_timer = oa.state != "established"; // teardown is bounded by the final-chance / inactivity timer instead
             if alive && (data_outstanding || (fin_outstanding && !closing_by_timer)) && oa.timers[0].is_none() && rec.rejected.is_empty() && !matches!(act, Some(Act::TransportPendingOnce)) {
-                let probe_pending = self.tx.values().any(|t| !t.acked && t.len > self.largest_payload_acked.max(self.protocol_min_payload()));
+                let probe_pending = self.tx.values().any(|t| !t.acked && t.len > self.proven());
                 v.push(f(
                     "C06",
                     "rto-timer",
@@ -839,10 +863,11 @@ impl Monitors {
             if due_now && rec.peer_sent.is_empty() && w.done.is_none() && rec.rejected.is_empty() {
                 if let Some(fu) = first_unacked {
                     let seg = &self.tx[&fu];
-                    let is_probe = seg.len > self.largest_payload_acked.max(self.protocol_min_payload()) && self.tx_order.last() == Some(&fu);
+                    let _ = seg;
+                    let is_probe = self.probe_seq == Some(fu);
                     let resent = rec.emitted.iter().any(|e| e.hdr.ptype == 0 && e.hdr.seq == fu);
                     if !resent && !is_probe {
-                        let behind_probe = self.tx.values().any(|t| !t.acked && t.len > self.largest_payload_acked.max(self.protocol_min_payload()));
+                        let behind_probe = self.tx.values().any(|t| !t.acked && t.len > self.proven());
                         v.push(f(
                             "C06",
                             "rto-timer",
@@ -1064,7 +1089,7 @@ impl Monitors {
             let outstanding: usize = self.tx.values().filter(|t| !t.acked).map(|t| t.len).sum();
             let next = (oa.mss as usize).min(unsent as usize);
             let allowed = (oa.cwnd.min(self.peer_last_wnd as usize)).saturating_sub(outstanding);
-            let probe_outstanding = self.tx.values().any(|t| !t.acked && t.len > self.largest_payload_acked.max(self.protocol_min_payload()));
+            let probe_outstanding = self.tx.values().any(|t| !t.acked && t.len > self.proven());
             if !w.cfg.nagle {
                 // the data must have been in the ring when the connection ran: a write in this step that did
                 // not wake the connection is judged by the idle-write rule instead
